@@ -41,9 +41,7 @@ vars == <<next, store, awaiting, futs, acks, invalid, seen, net, announced, fetc
 view == <<next, store, awaiting, futs, acks, invalid, seen, net, announced, fetched, failures, blocked, faults>>
 
 Count(b, f) == IF f \in DOMAIN b THEN b[f] ELSE 0
-\* identical frames in flight are capped at 2 copies (retries would otherwise make the bag unbounded; a third identical
-\* copy adds no behaviour: receivers de-duplicate)
-Put(b, f)   == [g \in DOMAIN b \cup {f} |-> IF g = f THEN (IF Count(b, g) >= 2 THEN 2 ELSE Count(b, g) + 1) ELSE Count(b, g)]
+Put(b, f)   == [g \in DOMAIN b \cup {f} |-> Count(b, g) + (IF g = f THEN 1 ELSE 0)]
 Take(b, f)  == [g \in {h \in DOMAIN b : h # f \/ b[h] > 1} |-> IF g = f THEN b[g] - 1 ELSE b[g]]
 Empty == [f \in {} |-> 0]
 Rng(s) == {s[i] : i \in 1..Len(s)}
@@ -240,4 +238,6 @@ Completed(i) == LET c == Cmds[i] IN
    ELSE c.ds \in invalid[c.src]
 EventuallyDone == <>[](\A i \in 1..Len(Cmds) : Completed(i))
 TypeOK == next \in 1..(Len(Cmds) + 1)
+\* model bound (state constraint): at most two identical frames in flight (retries would make the bag unbounded)
+NetBounded == \A f \in DOMAIN net : net[f] <= 2
 =============================================================================
